@@ -90,6 +90,19 @@ impl Scenario for CryptSc {
         p.set("n", n);
         p.set("t", x.range(2, n as u64) as i64);
         p.steps.push(Step::new(class, &[index as i64]));
+        if class.ends_with("-huge") {
+            // payloads of 64, 128 (thorough: 256) MiB: where a size limit, a five-byte length prefix or a 32-bit length would
+            // sit; one run each, plain byte codec, no faults (the runs take seconds and gigabytes)
+            const HUGE: [usize; 10] = [(1 << 26) - 3, 1 << 27, 1 << 26, (1 << 27) + 1, (1 << 26) - 4, (1 << 27) - 4, (1 << 26) + 1, (1 << 28) - 5, 1 << 28, (1 << 28) + 1];
+            p.set("len", HUGE[(index as usize) % HUGE.len()] as i64);
+            p.set("g", ((index / 2) % 2) as i64);
+            p.set("scheme", (index % 3) as i64);
+            p.set("codec", 0);
+            p.set("n", 3);
+            p.set("t", 2);
+            p.set("rounds", 1);
+            return p;
+        }
         let big = class.ends_with("-big");
         if big {
             // every large framed-size boundary; group, scheme and the threshold flag rotate
@@ -103,7 +116,7 @@ impl Scenario for CryptSc {
         let base_class = match class {
             "td-extremes" => "td-protocol",
             "eg-extremes" => "eg-tally",
-            c => c.trim_end_matches("-big"),
+            c => c.trim_end_matches("-big").trim_end_matches("-huge"),
         };
         match base_class {
             "sc-roundtrip" => {
@@ -200,7 +213,7 @@ impl Scenario for CryptSc {
         let base_class = match plan.class.as_str() {
             "td-extremes" => "td-protocol",
             "eg-extremes" => "eg-tally",
-            c => c.trim_end_matches("-big"),
+            c => c.trim_end_matches("-big").trim_end_matches("-huge"),
         };
         match base_class {
             "sc-roundtrip" => sc_roundtrip(plan, lib, rec),
